@@ -48,6 +48,19 @@ pub fn format_stub(_args: core::fmt::Arguments<'_>) -> String {
 
 const HDR: usize = 32;
 
+/// a zero buffer in which only the listed positions are symbolic: routing harnesses pin *which bytes end up in
+/// which field*; that every byte of every struct lands in its field is the job of the complete layout harnesses,
+/// and fully symbolic 50-80 byte messages through the seeking decoder exceed the solver budget (measured)
+fn sym_at<const N: usize>(positions: &[usize]) -> [u8; N] {
+    let mut b = [0u8; N];
+    let mut i = 0;
+    while i < positions.len() {
+        b[positions[i]] = kani::any();
+        i += 1;
+    }
+    b
+}
+
 fn be16(b: &[u8], o: usize) -> u16 {
     u16::from_be_bytes([b[o], b[o + 1]])
 }
@@ -85,9 +98,9 @@ fn header_fields(m: &Message, b: &[u8]) {
 }
 
 #[kani::proof]
-#[kani::unwind(6)]
+#[kani::unwind(18)]
 fn drd_route_vol() {
-    let mut bytes: [u8; 36 + 52] = kani::any();
+    let mut bytes: [u8; 36 + 52] = sym_at(&[10, 11, 22, 36, 40, 41, 76, 77, 80, 81, 87]);
     one_block(&mut bytes, b"VOL");
     let mut c = SliceReader { buf: &bytes[..], pos: 0 };
     let m = decode_digital_radar_data(&mut c).unwrap();
@@ -104,9 +117,9 @@ fn drd_route_vol() {
 }
 
 #[kani::proof]
-#[kani::unwind(6)]
+#[kani::unwind(18)]
 fn drd_route_elv() {
-    let mut bytes: [u8; 36 + 12] = kani::any();
+    let mut bytes: [u8; 36 + 12] = sym_at(&[10, 11, 22, 40, 41, 42, 43, 44, 45, 46, 47]);
     one_block(&mut bytes, b"ELV");
     let mut c = SliceReader { buf: &bytes[..], pos: 0 };
     let m = decode_digital_radar_data(&mut c).unwrap();
@@ -121,9 +134,9 @@ fn drd_route_elv() {
 }
 
 #[kani::proof]
-#[kani::unwind(6)]
+#[kani::unwind(18)]
 fn drd_route_rad() {
-    let mut bytes: [u8; 36 + 28] = kani::any();
+    let mut bytes: [u8; 36 + 28] = sym_at(&[10, 11, 22, 40, 41, 42, 43, 54, 55, 60, 61, 62, 63]);
     one_block(&mut bytes, b"RAD");
     let mut c = SliceReader { buf: &bytes[..], pos: 0 };
     let m = decode_digital_radar_data(&mut c).unwrap();
@@ -142,7 +155,7 @@ fn drd_route_rad() {
 /// one generic (moment) block with a concrete gate count and word size (a symbolic buffer length makes CBMC
 /// use > 20 GB); the sizing rule itself is proved for all u16 x u8 by c02_generic_block_new_len
 fn route_generic(name: &[u8; 3], which: usize, gates: u16, ws: u8) {
-    let mut bytes: [u8; 36 + 28 + 4] = kani::any();
+    let mut bytes: [u8; 36 + 28 + 4] = sym_at(&[10, 11, 22, 56, 57, 58, 59, 60, 61, 62, 63, 64, 65, 66, 67]);
     one_block(&mut bytes, name);
     bytes[36 + 8..36 + 10].copy_from_slice(&gates.to_be_bytes());
     bytes[36 + 19] = ws;
@@ -179,33 +192,33 @@ fn route_generic(name: &[u8; 3], which: usize, gates: u16, ws: u8) {
 }
 
 #[kani::proof]
-#[kani::unwind(6)]
+#[kani::unwind(18)]
 fn drd_route_ref() { route_generic(b"REF", 3, 2, 8); }
 #[kani::proof]
-#[kani::unwind(6)]
+#[kani::unwind(18)]
 fn drd_route_vel() { route_generic(b"VEL", 4, 1, 16); }
 #[kani::proof]
-#[kani::unwind(6)]
+#[kani::unwind(18)]
 fn drd_route_sw() { route_generic(b"SW ", 5, 0, 8); }
 #[kani::proof]
-#[kani::unwind(6)]
+#[kani::unwind(18)]
 fn drd_route_zdr() { route_generic(b"ZDR", 6, 2, 16); }
 #[kani::proof]
-#[kani::unwind(6)]
+#[kani::unwind(18)]
 fn drd_route_phi() { route_generic(b"PHI", 7, 1, 8); }
 #[kani::proof]
-#[kani::unwind(6)]
+#[kani::unwind(18)]
 fn drd_route_rho() { route_generic(b"RHO", 8, 3, 8); }
 #[kani::proof]
-#[kani::unwind(6)]
+#[kani::unwind(18)]
 fn drd_route_cfp() { route_generic(b"CFP", 9, 2, 8); }
 
 /// two blocks whose pointers are permuted relative to the layout and separated by a gap:
 /// layout  [hdr 32][ptr0 ptr1][RAD @40..68][gap 4][ELV @72..84] ; pointer order: ELV first, then RAD
 #[kani::proof]
-#[kani::unwind(6)]
+#[kani::unwind(18)]
 fn drd_two_blocks_permuted_gap() {
-    let mut bytes: [u8; 84] = kani::any();
+    let mut bytes: [u8; 84] = sym_at(&[44, 45, 58, 59, 76, 77, 78, 79]);
     bytes[30] = 0;
     bytes[31] = 2;
     bytes[32..36].copy_from_slice(&72u32.to_be_bytes());
@@ -307,7 +320,7 @@ fn drd_total_truncated() {
 
 /// C04 (bounded): block count 65535 with a short input is an error, not a crash or a huge allocation
 #[kani::proof]
-#[kani::unwind(6)]
+#[kani::unwind(18)]
 fn drd_total_count_extreme() {
     let mut bytes: [u8; 40] = kani::any();
     bytes[30] = 0xFF;
